@@ -51,8 +51,11 @@ def lat_unlinked(with_fault=True, fault_first=False):
     spec = {
         "megacomplex": {"m1": {"type": "verif-lat", "labels": ["a", "b", "c"], "cols": cols, "dcols": dcols, "par": ["p.1", "p.2", "p.3"]},
                         "m2": {"type": "verif-lat", "labels": ["a", "b"], "cols": [[2, 1, 0, 1], [0, 1, 2, 1]], "dcols": [[1, 0, 1, 0], [0, 1, 0, 2]],
-                               "par": ["p.2", "p.1"]}},
-        "dataset": {"d1": {"megacomplex": ["m1"], "scale": "s.1"}, "d2": {"megacomplex": ["m2"]}},
+                               "par": ["p.2", "p.1"]},
+                        "m3": {"type": "verif-lat", "labels": ["a", "b"], "cols": [[1, 2, 1], [2, 0, 1]], "dcols": [[0, 1, 1], [1, 1, 0]],
+                               "par": ["e.a", "e.b"]}},
+        # d3 depends on the free parameters ONLY through expression parameters (vary=False, yet they change with p.3)
+        "dataset": {"d1": {"megacomplex": ["m1"], "scale": "s.1"}, "d2": {"megacomplex": ["m2"]}, "d3": {"megacomplex": ["m3"]}},
         "dataset_groups": {"default": {"residual_function": "variable_projection", "link_clp": False}},
         "clp_relations": [{"source": "a", "target": "c", "parameter": "e.a", "interval": [(0, 1)]}],
         "clp_constraints": [{"type": "zero", "target": "b", "interval": [(2, 2)]}],
@@ -71,7 +74,8 @@ def lat_unlinked(with_fault=True, fault_first=False):
     d1ds = xr.Dataset({"data": (("spectral", "time"), np.ascontiguousarray(np.asarray(d1, dtype=float).T)),
                        "weight": (("spectral", "time"), np.ascontiguousarray(np.asarray(w1, dtype=float).T))},
                       coords={"time": t1, "spectral": g1})
-    data = {"d1": d1ds, "d2": dataset(d2, t2, g2)}
+    t3, g3 = np.arange(3.0), np.arange(2.0)
+    data = {"d1": d1ds, "d2": dataset(d2, t2, g2), "d3": dataset((np.outer(t3 + 1, g3 + 3) % 4) + 1.0, t3, g3)}
     if with_fault:
         _fault_part(spec, params, data, fault_first)
     sch = _scheme(spec, params, data)
@@ -131,7 +135,7 @@ def decay_irf(with_fault=True, fault_first=False, n_time=120, n_spec=12):
     return sch, _points(sch, [[0.05, 0.01, 0.02], [-0.1, -0.02, 0.05]])
 
 
-def decay_two_datasets(with_fault=True, fault_first=True):
+def decay_two_datasets(with_fault=True, fault_first=False):   # the auto-linked group is constructed FIRST (its link decision must not depend on what optimize() adds to the datasets)
     """Parallel decay + Gaussian IRF on two linked datasets with different time axes (thread-parallel kernels, alignment)."""
     from glotaran.parameter import Parameters
     from glotaran.simulation import simulate
@@ -139,7 +143,7 @@ def decay_two_datasets(with_fault=True, fault_first=True):
         "megacomplex": {"mpar": {"type": "decay-parallel", "compartments": ["s1", "s2"], "rates": ["rates.1", "rates.2"]}},
         "irf": {"irf1": {"type": "gaussian", "center": "irf.center", "width": "irf.width"}},
         "dataset": {"d1": {"megacomplex": ["mpar"], "irf": "irf1"}, "d2": {"megacomplex": ["mpar"], "irf": "irf1", "scale": "sc.1"}},
-        "dataset_groups": {"default": {"residual_function": "variable_projection", "link_clp": True}},
+        "dataset_groups": {"default": {"residual_function": "variable_projection", "link_clp": None}},
     }
     params = {"rates": [["1", 0.8], ["2", 0.15]], "irf": [["center", 0.2], ["width", 0.15]], "sc": [["1", 0.7]]}
     true = {"rates": [["1", 0.9], ["2", 0.12]], "irf": [["center", 0.25], ["width", 0.13]], "sc": [["1", 0.8]]}
